@@ -6,7 +6,8 @@ package chk
 //
 // that is never assigned again, never addressed, and used only as the operand of `for _, v := range T { BODY }` loops
 // (and of len(T)) is a list of cases written as data. With BODY reading v only through its fields, and without a
-// break / continue of the loop or a label in it, the loop is BODY once per element, in order:
+// break of the loop or a label in it (a `continue` of the loop becomes a jump to the end of its copy), the loop is
+// BODY once per element, in order:
 //
 //	T_e0 := E{..}; T_e1 := E{..}; ..   (where T was defined: the elements are still evaluated there, in order)
 //	{ BODY[v := T_e0] } { BODY[v := T_e1] } ..
@@ -220,6 +221,7 @@ func (in *inliner) unrollTablesIn(tpkg *types.Package, info *types.Info, fd *ast
 			}
 			okBody := true
 			var uses []*ast.Ident
+			var conts []*ast.BranchStmt
 			var walk func(m ast.Node, depthLoop bool)
 			walk = func(m ast.Node, inner bool) {
 				ast.Inspect(m, func(x ast.Node) bool {
@@ -245,7 +247,10 @@ func (in *inliner) unrollTablesIn(tpkg *types.Package, info *types.Info, fd *ast
 							if inside {
 								okBody = false
 							}
-						} else if !inner && (y.Tok == token.BREAK || y.Tok == token.CONTINUE) {
+						} else if !inner && y.Tok == token.CONTINUE {
+							// the rest of this copy is skipped: a jump to the end of the copy
+							conts = append(conts, y)
+						} else if !inner && y.Tok == token.BREAK {
 							okBody = false
 						}
 					case *ast.ForStmt, *ast.RangeStmt:
@@ -342,8 +347,14 @@ func (in *inliner) unrollTablesIn(tpkg *types.Package, info *types.Info, fd *ast
 				for _, u := range uses {
 					eds = append(eds, posEdit{u.Pos(), u.End(), names[i]})
 				}
+				for _, c := range conts {
+					eds = append(eds, posEdit{c.Pos(), c.End(), fmt.Sprintf("goto _unr%d_%d", in.off(rs.Pos()), i)})
+				}
 				sb.WriteString(in.renderEdits(rs.Body.Pos(), rs.Body.End(), eds))
 				sb.WriteString("\n")
+				if len(conts) > 0 {
+					fmt.Fprintf(&sb, "_unr%d_%d:\n", in.off(rs.Pos()), i)
+				}
 			}
 			les = append(les, loopEdit{rs, "{\n" + sb.String() + "}", len(uses) > 0})
 		}
